@@ -83,9 +83,9 @@ Print Assumptions C04_dry_report_refuted_manifest.
 (** Non-vacuity: the current tables are dry-guarded; a project with a manifest that is NOT rewritten meets the
     hypotheses of [C04_dry_report] and the dry run reports a source change set plus a manifest change set. *)
 Example C04_example_guard_and_report :
-  manifests_untouched run_tables_v bytes toy_parse toy_code toy_T toy_S toy_R toy_diff toy_fsel (toy_cfg false [[112%N]])
+  manifests_untouched tables_pinned bytes toy_parse toy_code toy_T toy_S toy_R toy_diff toy_fsel (toy_cfg false [[112%N]])
       w_manifest_K [([112%N], [3%N]); ([109%N], [9%N])] [w_manifest_store] = true /\
   option_map (map (fun r => length (r_changeset r)))
-    (report [w_manifest_K] (toy_run run_tables_v (toy_cfg true [[112%N]]) [w_manifest_K]
+    (report [w_manifest_K] (toy_run tables_pinned (toy_cfg true [[112%N]]) [w_manifest_K]
                               [([112%N], [3%N]); ([109%N], [9%N])] [w_manifest_store])) = Some [2].
 Proof. vm_compute. split; reflexivity. Qed.
